@@ -92,7 +92,8 @@ def roundtrip(case, backend, timeout_ms):
         res["status"] = "skipped"
         return res
     out_expr = tuple(Ax(k, s) for k, s in loops)
-    desc = show_op(list(case["ins"][:-1]), [out_expr])
+    # the result of set_at has the layout of the OUTPUT expression (which may re-order the target's axes)
+    desc = show_op([case["outs"][0]] + list(case["ins"][1:-1]), [out_expr])
     kw = dict(case["kwargs"])
     try:
         back = einx.get_at(desc, out, *snap[1:-1], backend=backend, **kw)
